@@ -790,6 +790,52 @@ def hilbert_xy2d(p, x, y):
     return d
 
 
+@check(('C08',), 'array.hilbert_distance-fine-grid')
+def c_hilbert_fine_grid(rng):
+    """a grid finer than the resolution of the coordinate subtype (p 24..31, float32 or float64 coordinates one ulp
+    apart): the cell is that of the exact bounding-box midpoint; extent a power of two, so the scaling is exact"""
+    from fractions import Fraction as Fr
+    kind = rng.choice(gen.KINDS)
+    dtype = rng.choice(['float32', 'float32', 'float64'])
+    els = gen.elements(kind, rng, p_missing=0.1, p_empty=0.0)
+    if not any(e is not None for e in els):
+        return []
+    u = 2.0 ** -23
+
+    def fine(x):
+        if x is None:
+            return None
+        if isinstance(x, list):
+            return [fine(v) for v in x]
+        return 1.0 + (float(x) + 16.0) * u          # coordinates in [1, 2): representable in float32
+    if any(abs(c) > 16 or c != c or float(c) != int(c) for c in gen._coords(els)):
+        return []
+    els = [fine(e) for e in els]
+    arr = gen.build(kind, els, dtype)
+    p = rng.choice([24, 25, 28, 31])
+    tb = (1.0, 1.0, 2.0, 2.0)
+    recipe = {'kind': kind, 'elements': els, 'steps': [], 'dtype': dtype, 'total_bounds': list(tb), 'p': p}
+    try:
+        d = arr.hilbert_distance(total_bounds=tb, p=p)
+    except Exception as e:
+        return [V(f'array.hilbert_distance-fine-grid/raises-{type(e).__name__}', f'{e}', recipe)]
+    side = 1 << p
+    for i, el in enumerate(els):
+        if el is None:
+            continue
+        b = oracle.bounds(kind, el)
+        if any(math.isnan(v) for v in b):
+            continue
+        mx, my = (Fr(b[0]) + Fr(b[2])) / 2, (Fr(b[1]) + Fr(b[3])) / 2
+        cx = min(max(int(math.floor((mx - 1) * side)), 0), side - 1)
+        cy = min(max(int(math.floor((my - 1) * side)), 0), side - 1)
+        exp = hilbert_xy2d(p, cx, cy)
+        if int(d[i]) != exp:
+            return [V(f'array.hilbert_distance-fine-grid/cell/{dtype}', f'row {i} bounds {b} p {p}: got {int(d[i])} expected {exp} '
+                      f'(cell {cx},{cy})', recipe)]
+    return []
+
+
 @check(('C08', 'C07'), 'array.hilbert_distance-reference-cell')
 def c_hilbert_reference(rng):
     """value check where the scaling is exact: extent a power of two (or degenerate, widened by one)"""
